@@ -252,7 +252,13 @@ def gen_ctl(seed, tier):
         nonlocal b
         ha = eng == "genc1"
         ops = [[0] + sc]
-        if 7 in styles and not ha:
+        if 8 in styles:
+            k = rng.randint(0, 3)
+            for _ in range(k):
+                ops.append([1, rng.choice([y for y in styles if y not in (7, 8)] or [6]), rng.randint(100, 140) if ha else 0])
+            ops.append([1, 8, rng.randint(100, 140) if ha else 0])
+            ops.append([1, rng.choice([0, 2, 3, 6]), 0])        # End is sticky after the chain
+        elif 7 in styles and not ha:
             k = rng.randint(0, 2)
             for _ in range(k):
                 ops.append([1, rng.choice([y for y in styles if y != 7] or [1]), 0])
@@ -266,17 +272,17 @@ def gen_ctl(seed, tier):
             sched = [9] + [rng.randint(0, 3) for _ in range(rng.randint(10, 80))]
             cases.append(Case(eng, "c%d" % b, ops + [sched])); b += 1
     for sc in scripts0:
-        for styles in ([0], [1], [2], [3], [4], [5], [6], [7], [0, 1, 2, 3, 4, 5, 6], [7, 0, 3]):
+        for styles in ([0], [1], [2], [3], [4], [5], [6], [6], [7], [8], [8, 6, 3], [0, 1, 2, 3, 4, 5, 6], [7, 0, 3]):
             one("genc0", sc, styles, 7, 2 if quick else 12)
     for sc in scripts1:
-        for styles in ([0], [2], [3], [4], [6], [0, 2, 3, 4, 5, 6]):
+        for styles in ([0], [2], [3], [4], [6], [6], [8], [8, 6], [0, 2, 3, 4, 5, 6]):
             one("genc1", sc, styles, 6, 2 if quick else 12)
     n = 60 if quick else 800
     for i in range(n):
         eng = "genc0" if i % 2 == 0 else "genc1"
         ha = eng == "genc1"
         sc = gen_script(rng, ha, rng.randint(1, 9), rng.choice([0.15, 0.3, 0.45]), rng.choice([0, 0, 1, 2]))
-        styles = rng.choice([STYLES1 if ha else STYLES0 + [7], [0, 3], [2, 4], [1, 6] if not ha else [6, 0]])
+        styles = rng.choice([STYLES1 if ha else STYLES0 + [7], [0, 3], [2, 4], [1, 6] if not ha else [6, 0], [6], [8, 6], [8]])
         one(eng, sc, styles, rng.randint(2, 9), 1 if quick else 3)
     return cases
 
